@@ -209,9 +209,9 @@ Proof. exact no_torn_read. Qed.
 Print Assumptions C06_no_torn_read.
 
 (* ---- non-vacuity ---- *)
-Definition C06_tbl : bytes := [112; 47; 116; 97; 98; 108; 101; 115; 47; 116]%N.   (* "p/tables/t" *)
+Definition C06_tbl : bytes := [112; 114; 111; 106; 101; 99; 116; 115; 47; 112; 47; 105; 110; 115; 116; 97; 110; 99; 101; 115; 47; 105; 47; 116; 97; 98; 108; 101; 115; 47; 116]%N.   (* "projects/p/instances/i/tables/t" *)
 Definition C06_s0 : server :=
-  fst (run [] [mkCall (BCreateTable [112%N] [116%N] [([102%N], None)]) 0 []]).
+  fst (run [] [mkCall (BCreateTable [112; 114; 111; 106; 101; 99; 116; 115; 47; 112; 47; 105; 110; 115; 116; 97; 110; 99; 101; 115; 47; 105]%N [116%N] [([102%N], None)]) 0 []]).
 Definition C06_w (v : N) : call := mkCall (BMutateRow C06_tbl [114%N] [SetCell [102%N] [113%N] 1000 [v]]) 0 [].
 Definition C06_r : call := mkCall (BReadRows C06_tbl [] [] None 0) 0 [].
 
@@ -252,7 +252,7 @@ Proof. vm_compute. repeat split. Qed.
 (* three concurrent increments of a counter holding 5, interleaved: the counter ends at 8 *)
 Definition C06_ctr (v : N) : bytes := [0; 0; 0; 0; 0; 0; 0; v]%N.
 Definition C06_s1 : server :=
-  fst (run [] [mkCall (BCreateTable [112%N] [116%N] [([102%N], None)]) 0 [];
+  fst (run [] [mkCall (BCreateTable [112; 114; 111; 106; 101; 99; 116; 115; 47; 112; 47; 105; 110; 115; 116; 97; 110; 99; 101; 115; 47; 105]%N [116%N] [([102%N], None)]) 0 [];
                mkCall (BMutateRow C06_tbl [114%N] [SetCell [102%N] [113%N] 1000 (C06_ctr 5)]) 0 []]).
 Definition C06_inc (now : Z) : call := mkCall (BReadModifyWrite C06_tbl [114%N] [RIncrement [102%N] [113%N] 1]) now [].
 
